@@ -25,6 +25,8 @@ def gen_legal(rng, arches):
         d = "/".join(rstr(rng, NAME_SEG + "-", 0, 5) for _ in range(rng.randint(1, 3))) + "/"
         if rng.random() < 0.2:
             d = "/" + d
+    if rng.random() < 0.02:                                  # "any directory prefix": also a very long one
+        d = "/".join(rstr(rng, NAME_SEG, 20, 40) for _ in range(8)) + "/"
     sfx = ".rpm" if rng.random() < 0.5 else ""
     s = d + name + "-" + ("%d:" % epoch if epoch is not None else "") + version + "-" + release + "." + arch + sfx
     parts = {"name": name, "epoch": epoch or 0, "version": version, "release": release, "arch": arch}
